@@ -137,6 +137,14 @@ Theorem C20_ipf_no_leak : forall stateless tracked n ops,
 Proof. exact ipf_no_leak. Qed.
 Print Assumptions C20_ipf_no_leak.
 
+(* ... and not only no TRACKED target (the harness' counter, [live_m tracked] is 0 for an empty [tracked] whatever happens): no
+   storage at all -- wrapper, by-value parameter, swap's temporary -- holds an object after the wrappers are destroyed *)
+Theorem C20_ipf_nothing_alive_after_destruction : forall stateless tracked n ops,
+  exists s' s'', run_m stateless tracked n init_state ops = Good (s', snd (run_s stateless tracked n init_astate ops))
+                 /\ destroy_all n s' = Good s'' /\ any_live n s'' = false.
+Proof. exact ipf_nothing_alive. Qed.
+Print Assumptions C20_ipf_nothing_alive_after_destruction.
+
 Theorem C20_call_exactly_once : forall stateless n s w arg, inv s -> (w < n)%nat ->
   match abs_slot s w with
   | None => step_m stateless n s (OCall w arg) = Good (s, TEmpty)
@@ -328,6 +336,10 @@ Print Assumptions C20_not_fn_static.
 Theorem C20_wrapper_copies_hold_equivalent_targets : forall x y, wrapcopy_m x y = wrapcopy_spec x y.
 Proof. exact wrapcopy_agrees. Qed.
 Print Assumptions C20_wrapper_copies_hold_equivalent_targets.
+
+Theorem C20_member_pointer_targets : forall x, memptr_target_m x = memptr_target_spec x.
+Proof. exact memptr_target_agrees. Qed.
+Print Assumptions C20_member_pointer_targets.
 
 Theorem C20_make_pair_member_types : forall w, make_pair_member_m w = make_pair_member_spec w.
 Proof. exact make_pair_member_agree. Qed.
